@@ -25,7 +25,7 @@ Fold(s, wr, i, out) ==
 
 NewHistory == IsEvent("init") /\ sp' = PowerOn
 DriverWrite == IsEvent("bw") /\ sp' = Fold(sp, << <<Recs[l].a, Recs[l].v>> >>, 1, << >>).sp
-Passive == l <= Len(Recs) /\ Recs[l].ev \in {"press", "release", "br", "tick", "frame"} /\ l' = l + 1 /\ UNCHANGED sp
+Passive == l <= Len(Recs) /\ Recs[l].ev \in {"press", "release", "br", "bf", "tick", "frame"} /\ l' = l + 1 /\ UNCHANGED sp
 Step == IsEvent("step") /\ LET r == Fold(sp, Recs[l].wr, 1, << >>) IN sp' = r.sp /\ r.out = Recs[l].out
 Next == NewHistory \/ DriverWrite \/ Passive \/ Step
 TraceSpec == Init /\ [][Next]_<<sp, l>>
